@@ -161,6 +161,13 @@ class GenerateNodes(Contract):
                     out.append(('real-node-carries-name-and-verbose-name', z3.And(
                         T(st.getf(d, 'name'), st) == attr_fn('name')(cls),
                         T(st.getf(d, 'verbose_name'), st) == attr_fn('verbose_name')(cls))))
+                    # the documentation a node declares: the docstring of its process method, else that of the class
+                    ucs = user_calls(ctx.iter_effects)
+                    if ucs and ucs[0].result is not None:
+                        GETDOC = z3.Function('getdoc', PyV, PyV)
+                        mdoc = GETDOC(attr_fn('process')(T(ucs[0].result, st)))
+                        out.append(('real-node-carries-its-declared-documentation (process docstring, else class docstring)', T(
+                            st.getf(d, 'doc'), st) == z3.If(truthy_term(mdoc), mdoc, GETDOC(cls))))
             return out
         return [LoopSpec(text='self._dag.graph.nodes', havoc={'nodes': 'content'}, inv=inv, body_post=body_post,
                          ghost_init=ghost_init)]
